@@ -138,6 +138,9 @@ func (st *State) loadKey(kind PtrKind, key string, base, idx *Term, t types.Type
 	if s := scalarSort(t); s != nil {
 		v := st.readLeaf(kind, key, base, idx, s)
 		st.vc.loadFacts(st, v, t)
+		if _, isFn := under(t).(*types.Signature); isFn && st.vc.prog != nil && st.vc.prog.pureFields[key] {
+			return &FuncV{Fn: pureField(key), Term: v}
+		}
 		return v
 	}
 	switch u := under(t).(type) {
